@@ -8,6 +8,7 @@ package rules
 import (
 	"fmt"
 	"go/token"
+	"go/types"
 	"strings"
 
 	"dvcheck/internal/eng"
@@ -32,6 +33,7 @@ func init() {
 	wrap("C42", c42LockHandedOutOnlyIfHeld)
 	wrap("C15", c15BuilderResetComplete)
 	wrap("C08", c08GenerationalOrder)
+	wrap("C08", c08WriteOfferedToKeeper)
 	Registry["C24"].Patterns = append(Registry["C24"].Patterns, "./libraries/doltcore/env/actions")
 }
 
@@ -446,4 +448,80 @@ func c08GenerationalOrder(k *eng.Check) {
 		return
 	}
 	k.OnlyAfter("generational-order", f, "the old generation's tables are swapped only after the new generation's swap succeeded", swapOld, 1, swapNewOK)
+}
+
+// c08WriteOfferedToKeeper: a chunk write is acknowledged (the function that put it into the memtable returns
+// without error and — when it reports success as a boolean — with a result that may be true) only after the
+// installed keeper was consulted about that chunk, or on the edge where no keeper is installed.  A memtable hit
+// (chunkExists) counts as a write for this purpose: the collection may have started after the first write.
+func c08WriteOfferedToKeeper(k *eng.Check) {
+	c := k.C
+	mMem := eng.Static("(*store/nbs.memTable).addChunk")
+	n := 0
+	for _, fn := range c.Funcs("store/nbs") {
+		if c.IsTestFile(fn.Pos()) {
+			continue
+		}
+		var writes []ssa.CallInstruction
+		for _, w := range eng.Calls(fn, mMem, false) {
+			// the store's own memtable (not a private one built to serialise a chunk set)
+			if len(w.Common().Args) > 0 && eng.Mentions(w.Common().Args[0], eng.IsField("store/nbs.NomsBlockStore.memtable")) {
+				writes = append(writes, w)
+			}
+		}
+		if len(writes) == 0 {
+			continue
+		}
+		n++
+		k.FuncsSeen[fn] = true
+		cuts := eng.NewSet()
+		for _, b := range fn.Blocks {
+			for _, in := range b.Instrs {
+				if ci, ok := in.(ssa.CallInstruction); ok && ci.Common().StaticCallee() == nil && !ci.Common().IsInvoke() && fromKeeperField(ci.Common().Value) {
+					cuts.AddI(in)
+				}
+			}
+			if len(b.Instrs) == 0 {
+				continue
+			}
+			if iff, ok := b.Instrs[len(b.Instrs)-1].(*ssa.If); ok {
+				if bo, ok := iff.Cond.(*ssa.BinOp); ok && (bo.Op == token.NEQ || bo.Op == token.EQL) {
+					x, y := bo.X, bo.Y
+					if isNil(x) {
+						x, y = y, x
+					}
+					if isNil(y) && fromKeeperField(x) {
+						if bo.Op == token.NEQ {
+							cuts.AddE(eng.Edge{From: b, Succ: 1})
+						} else {
+							cuts.AddE(eng.Edge{From: b, Succ: 0})
+						}
+					}
+				}
+			}
+		}
+		var starts []eng.Point
+		for _, w := range writes {
+			starts = append(starts, eng.After(w.(ssa.Instruction)))
+		}
+		accept := func(in ssa.Instruction, q eng.FactQuery) bool {
+			ret, ok := in.(*ssa.Return)
+			if !ok {
+				return true
+			}
+			for i := range ret.Results {
+				r := eng.Unspill(ret, i)
+				if b, ok := r.Type().Underlying().(*types.Basic); ok && b.Kind() == types.Bool {
+					if val, known := q(r); known && !val {
+						return false // reports "not written"
+					}
+				}
+			}
+			return true
+		}
+		k.OnlyAfterF("write-offered-to-keeper", fn, "a chunk put into (or found in) the memtable is acknowledged only after the installed keeper was consulted", eng.SuccessExits(fn), 1, cuts, accept, starts...)
+	}
+	if n < 1 {
+		k.Unknown("write-offered-to-keeper", "store/nbs", "functions that put chunks into the memtable", "none found")
+	}
 }
